@@ -161,6 +161,17 @@ func (c ConfigSpec) Bytes() (Config, error) {
 	if l := len(c.PublicName); l == 0 || l > 255 {
 		return nil, errors.New("invalid public name length")
 	}
+	// The other fields that cannot be empty: public_key<1..2^16-1> and
+	// cipher_suites<4..2^16-4>. The layout below is the one of version 0xfe0d.
+	if c.Version != 0xfe0d {
+		return nil, errors.New("unsupported version")
+	}
+	if len(c.PublicKey) == 0 {
+		return nil, errors.New("invalid public key length")
+	}
+	if len(c.CipherSuites) == 0 {
+		return nil, errors.New("no cipher suites")
+	}
 	b := cryptobyte.NewBuilder(nil)
 	b.AddUint16(c.Version)
 	b.AddUint16LengthPrefixed(func(b *cryptobyte.Builder) {
